@@ -500,7 +500,13 @@ auto int_case(int which, I v, bool count) -> std::string
     double const d = static_cast<double>(v);
     switch (which) {
     case 0: r = cmpf<double>(etl::floor(v), o_floor(d), &o); break;
-    case 1: r = cmpf<double>(etl::ceil(v), o_ceil(d), &o); break;
+    case 1:
+        if (count && vf::ctx().excluded("C16.ceil.gcem") && cls_ceil_gcem(d)) {
+            vf::excluded_known("C16.ceil.gcem");
+            return "";
+        }
+        r = cmpf<double>(etl::ceil(v), o_ceil(d), &o);
+        break;
     case 2: r = cmpf<double>(etl::trunc(v), o_trunc(d), &o); break;
     case 3: r = cmpf<double>(etl::round(v), o_round(d), &o); break;
     case 4: r = cmpf<double>(etl::rint(v), o_rint(d), &o); break;
